@@ -2,7 +2,8 @@
 """Confirms seeded breaking changes produced by independent sub-agents and runs the checks against them.
 usage: seedeval.py <srcdir e.g. /tmp/mut/C06-1.out/A> <PROP> <name> [extra props...]
  - confirms in a scratch worktree that the patch applies, builds, and that the demonstration fails with it and passes without
- - applies the patch to /repo, runs bin/check <PROP> quick (and the extra props), restores /repo
+ - runs bin/check <PROP> quick (and the extra props) from a scratch copy of the committed /verif against a scratch checkout
+   of /repo that carries the patch (VERIF_REPO); /repo itself is not touched
  - stores patch, demonstration and meta.json under /verif/seeded/<name>/"""
 import json, os, re, shutil, subprocess, sys, time
 ENV = dict(os.environ, GOFLAGS="-mod=mod", GOPROXY="off", GOSUMDB="off", GOTOOLCHAIN="local")
@@ -59,25 +60,34 @@ def main():
                 meta["ran"].append("demo: " + " ".join(run))
                 demo_ok = rc1 != 0 and rc2 == 0
         meta["confirmed"] = bool(meta["builds"] and demo_ok)
+        # the checks against the change: a scratch copy of the committed /verif whose harness is pointed (VERIF_REPO) at
+        # the scratch checkout carrying the change - /repo itself is not touched
+        sh(["git", "checkout", "--", "."], cwd=wt)
+        sh(["git", "clean", "-fdq"], cwd=wt)
+        rc, out = sh(["git", "apply", patch], cwd=wt)
+        vf = "/tmp/seedvf_" + name
+        sh(["git", "-C", "/verif", "worktree", "remove", "--force", vf])
+        rc, out = sh(["git", "-C", "/verif", "worktree", "add", "-q", "--detach", vf, "HEAD"])
+        if rc:
+            print("verif worktree failed", out); sys.exit(2)
+        det = {}
+        try:
+            env = dict(ENV, VERIF_REPO=wt)
+            for p in [prop] + extra:
+                t0 = time.time()
+                pr = subprocess.run(["bin/check", p, "quick"], cwd=vf, env=env, capture_output=True, text=True, timeout=3000)
+                rc, out = pr.returncode, pr.stdout + pr.stderr
+                whats = [l.strip()[6:] for l in out.splitlines() if l.strip().startswith("what:")]
+                det[p] = {"rc": rc, "violations": out.count("VIOLATION property="), "first": whats[:2], "wall_s": round(time.time() - t0)}
+                if rc not in (0, 1):
+                    det[p]["tail"] = out[-600:]
+                meta["ran"].append("bin/check %s quick (scratch copy of /verif, harness built against a scratch checkout with the patch applied)" % p)
+        finally:
+            sh(["git", "-C", "/verif", "worktree", "remove", "--force", vf])
+            shutil.rmtree(vf, ignore_errors=True)
     finally:
         sh(["git", "-C", "/repo", "worktree", "remove", "--force", wt])
         shutil.rmtree(wt, ignore_errors=True)
-    # the checks against the change, in /repo itself
-    rc, out = sh(["git", "-C", "/repo", "status", "--porcelain"])
-    if out.strip():
-        print("/repo is dirty, not running checks"); return meta
-    rc, out = sh(["git", "-C", "/repo", "apply", patch])
-    det = {}
-    try:
-        for p in [prop] + extra:
-            t0 = time.time()
-            rc, out = sh(["bin/check", p, "quick"], cwd="/verif", timeout=3000)
-            whats = [l.strip()[6:] for l in out.splitlines() if l.strip().startswith("what:")]
-            det[p] = {"rc": rc, "violations": out.count("VIOLATION property="), "first": whats[:2], "wall_s": round(time.time() - t0)}
-            meta["ran"].append("bin/check %s quick (on /repo with the patch applied)" % p)
-    finally:
-        sh(["git", "-C", "/repo", "checkout", "--", "."])
-        sh(["git", "-C", "/repo", "clean", "-fdq"])
     meta["detection"] = det
     meta["detected_by"] = [p for p, d in det.items() if d["rc"] == 1]
     return meta
